@@ -53,6 +53,9 @@ abbrev Inner := AList (List Kevent)
 /-- `self.on_going_events` / `self.on_going_traces` : dict tid → dict eventid → list of events -/
 abbrev Tbl := AList Inner
 
+instance : DecidableEq Inner := inferInstance
+instance : DecidableEq Tbl := inferInstance
+
 /-- The mutable part of a `TracesParser` that the five methods touch, plus an observation log:
     `calls` = the argument of every call of `parse_event_list` so far, in order (what the harness sees by
     wrapping that method). -/
@@ -60,7 +63,7 @@ structure World where
   events : Tbl := []
   traces : Tbl := []
   calls : List (List Kevent) := []
-  deriving Repr
+  deriving DecidableEq, Repr
 
 def World.empty : World := {}
 
